@@ -125,6 +125,62 @@ def system_level(chk, souffle, rng, tier):
             got = open(os.path.join(d, "back.csv")).read() if rc2 == 0 else ""
             chk.finding("C17-sys-%s-%s" % (name, vname), "store-then-load through %s (%s columns) does not reproduce the tuples (%s): %s" % (name, vname, stats[name + "/" + vname], (e1 + e2)[-300:]),
                         {"write_program": open(os.path.join(d, "w.dl")).read(), "read_program": open(os.path.join(d, "r.dl")).read(), "facts": rows, "read_back": got, "direct": direct})
+    # ---- volume: relations much larger than any stream buffer (gzip: 64 KiB put area, 64 KiB - 16 get area), every kind
+    nrows = 7000 if tier == "quick" else 60000
+    big = ["%d\t%s" % (i * 7919 % 1000003 - 500000, "s%d_%s" % (i, "xyz"[i % 3] * (i % 23))) for i in range(nrows)]
+    for name, wopt, ropt in kinds:
+        d = C.fresh_dir("c17sys", name + "_big")
+        with open(os.path.join(d, "r.facts"), "w") as fh:
+            fh.write("\n".join(big) + "\n")
+        wsep = "," if wopt else ""
+        files = {"gzip": ('IO=file, filename="%s/stored.csv.gz", compress=true' % d, 'IO=file, filename="%s/stored.csv.gz"' % d),
+                 "sqlite": ('IO=sqlite, dbname="%s/db.sqlite"' % d,) * 2, "json": ('IO=jsonfile, filename="%s/stored.json"' % d,) * 2}
+        w, rd = files.get(name, ('filename="%s/stored.csv"%s%s' % (d, wsep, wopt), 'filename="%s/stored.csv"%s%s' % (d, wsep, ropt)))
+        decl = ".decl r(x:number, s:symbol)\n"
+        with open(os.path.join(d, "w.dl"), "w") as fh:
+            fh.write(decl + ".input r\n.output r(%s)\n" % w)
+        with open(os.path.join(d, "r.dl"), "w") as fh:
+            fh.write(decl + ".input r(%s)\n.output r(filename=\"%s/back.csv\")\n" % (rd, d))
+        rc1, _, e1 = C.sh([souffle, "-w", os.path.join(d, "w.dl"), "-F", d, "-D", d], timeout=300, cwd=d)
+        rc2, _, e2 = C.sh([souffle, "-w", os.path.join(d, "r.dl"), "-F", d, "-D", d], timeout=300, cwd=d) if rc1 == 0 else (None, "", "")
+        back = sorted(open(os.path.join(d, "back.csv")).read().splitlines()) if rc2 == 0 else None
+        ok = back == sorted(big)
+        stats[name + "/volume"] = "same" if ok else "rc=%s/%s" % (rc1, rc2)
+        if not ok:
+            diff = sorted(set(big) ^ set(back or []))[:6]
+            chk.finding("C17-sys-%s-volume" % name, "store-then-load of %d rows (%d bytes of text) through %s does not reproduce the tuples (%s); first differing rows %s %s" % (nrows, sum(len(x) + 1 for x in big), name, stats[name + "/volume"], diff, (e1 + e2)[-200:]),
+                        {"write_program": open(os.path.join(d, "w.dl")).read(), "read_program": open(os.path.join(d, "r.dl")).read(), "facts_rule": "row i = (i*7919 mod 1000003 - 500000, 's<i>_' + 'xyz'[i mod 3] * (i mod 23)), i < %d" % nrows, "differing_rows": diff})
+    # ---- RFC 4180 with every short combination of the special characters inside a symbol (quote, newline, delimiter,
+    #      backslash, blank), which the line-based default format used by the unit-level cases cannot carry: the symbols
+    #      are facts in the program text; the reading program holds the same facts and reports what is missing / extra
+    alpha = [("a", "a"), ('"', '\\"'), ("\n", "\\n"), (",", ","), ("\\", "\\\\"), (" ", " ")]
+    syms = []
+    for a in alpha:
+        syms.append((a[0], a[1]))
+        for b in alpha:
+            syms.append((a[0] + b[0], a[1] + b[1]))
+            for c in alpha:
+                syms.append((a[0] + b[0] + c[0], a[1] + b[1] + c[1]))
+    for delim in (",", ";"):
+        d = C.fresh_dir("c17sys", "rfc_special_%d" % ord(delim))
+        facts = "".join('orig(%d, "%s").\n' % (i, lit) for i, (_, lit) in enumerate(syms))
+        opt = 'rfc4180=true, delimiter="%s", filename="%s/stored.csv"' % (delim, d)
+        with open(os.path.join(d, "w.dl"), "w") as fh:
+            fh.write(".decl orig(i:number, s:symbol)\n" + facts + ".output orig(%s)\n" % opt)
+        with open(os.path.join(d, "r.dl"), "w") as fh:
+            fh.write(".decl orig(i:number, s:symbol)\n" + facts + ".decl r(i:number, s:symbol)\n.input r(%s)\n" % opt +
+                     ".decl missing(i:number)\nmissing(i) :- orig(i, s), !r(i, s).\n.decl extra(i:number)\nextra(i) :- r(i, s), !orig(i, s).\n"
+                     ".output missing(filename=\"%s/missing.csv\")\n.output extra(filename=\"%s/extra.csv\")\n" % (d, d))
+        rc1, _, e1 = C.sh([souffle, "-w", os.path.join(d, "w.dl"), "-D", d], timeout=120, cwd=d)
+        rc2, _, e2 = C.sh([souffle, "-w", os.path.join(d, "r.dl"), "-D", d], timeout=120, cwd=d) if rc1 == 0 else (None, "", "")
+        missing = open(os.path.join(d, "missing.csv")).read().split() if rc2 == 0 else None
+        extra = open(os.path.join(d, "extra.csv")).read().split() if rc2 == 0 else None
+        ok = rc2 == 0 and not missing and not extra
+        stats["rfc4180-special-symbols/delimiter %s" % delim] = "same (%d symbols)" % len(syms) if ok else "rc=%s/%s missing=%s extra=%s" % (rc1, rc2, (missing or [])[:5], (extra or [])[:5])
+        if not ok:
+            lost = [syms[int(i)][0] for i in (missing or [])[:5] if i.isdigit() and int(i) < len(syms)]
+            chk.finding("C17-sys-rfc4180-special-symbols", "RFC 4180 store-then-load (delimiter %r) loses or alters symbols made of quote / newline / delimiter / backslash / blank: %s; symbols not read back: %r %s" % (delim, stats["rfc4180-special-symbols/delimiter %s" % delim], lost, (e1 + e2)[-300:]),
+                        {"write_program": open(os.path.join(d, "w.dl")).read()[:3000], "read_options": opt, "symbols_not_read_back": lost})
     return stats
 
 
